@@ -142,7 +142,10 @@ def setup(c):
                      "(inval/needreload/gc/newcache/epochnm/updleader) interleaved with loc/locend/locid/range/batch/group/listids on the real "
                      "RegionCache; every lookup line carries the verdict of the property oracle evaluated on that side's own result "
                      "(containment, in-order gap-free cover, grouping, known region, no regression of the index) followed by the raw result; "
-                     "`dump` lines compare the ordered index and latestVersions; distinct = distinct op lines")
+                     "`dump` lines compare the ordered index and latestVersions; a quarter of the cases start with the directed hole family "
+                     "(3..6 regions, cache warmed over the whole key space, need-reload flag or invalidation on one or two MIDDLE regions, then "
+                     "batch/range lookups spanning them, also with ranges starting inside the flagged region and under a stale PD view); "
+                     "distinct = distinct op lines")
     c.assumptions = [
         "keys pass through CodecPDClient (memcomparable encoding, ModeTxn); the model works on raw keys (order isomorphism: C19)",
         "mu.regions is modelled as derived from the ordered index (a VerID determines the key range); checked by every dump",
